@@ -144,6 +144,10 @@ type srvEmit struct {
 	// badReply: the peer's reply arrives in time but cannot be decoded into the callback's parameter types (an
 	// object where a string is expected): the reply is unusable, so an ack with a timeout gets its timeout
 	badReply bool
+	// batch: this emit's reply is not sent by a thread of its own but travels in the same batch of Engine.IO packets
+	// as the previous emit's reply, right behind it (what one long-polling request body carries; seed c03i: the parser
+	// reused the frame list of the previous binary packet while its decode was still pending)
+	batch bool
 }
 
 // staleAck: an acknowledgement that belongs to a PREVIOUS session of the same client arrives on its new
@@ -286,14 +290,13 @@ func serverSide(name string, emits []srvEmit, wrongID bool, cut time.Duration, b
 		// the protocol-level client: one answering thread per emit
 		for i, em := range emits {
 			i, em := i, em
-			if em.reply == "" {
+			if em.reply == "" || em.batch {
 				continue
 			}
-			vsched.GoQuiet(fmt.Sprintf("client-reply%d", i), func() {
-				var id string
+			idOf := func(ev string) (id string) {
 				vsched.Await(func() bool {
 					for _, t := range f.Texts() {
-						if strings.Contains(t, `["`+em.ev+`"`) {
+						if strings.Contains(t, `["`+ev+`"`) {
 							var ok bool
 							id, ok = ackID(t)
 							return ok
@@ -301,6 +304,23 @@ func serverSide(name string, emits []srvEmit, wrongID bool, cut time.Duration, b
 					}
 					return false
 				})
+				return id
+			}
+			replyPackets := func(i int, em srvEmit, id string) []*eioparser.Packet {
+				switch {
+				case em.binary > 0:
+					return []*eioparser.Packet{vrig.Msg(fmt.Sprintf(`6%d-%s[{"_placeholder":true,"num":0},{"_placeholder":true,"num":1}]`, 2, id)), vrig.Bin([]byte{1, byte(i)}), vrig.Bin([]byte{2, byte(i)})}
+				case em.badReply:
+					return []*eioparser.Packet{vrig.Msg(fmt.Sprintf(`3%s[{"not":"a string"}]`, id))}
+				}
+				return []*eioparser.Packet{vrig.Msg(fmt.Sprintf(`3%s["%s"]`, id, em.reply))}
+			}
+			vsched.GoQuiet(fmt.Sprintf("client-reply%d", i), func() {
+				ps := replyPackets(i, em, idOf(em.ev))
+				// the replies of the following emits marked 'batch' travel in the same batch
+				for j := i + 1; j < len(emits) && emits[j].batch; j++ {
+					ps = append(ps, replyPackets(j, emits[j], idOf(emits[j].ev))...)
+				}
 				if em.replyDelay > 0 {
 					vsched.Sleep(em.replyDelay)
 				}
@@ -309,13 +329,7 @@ func serverSide(name string, emits []srvEmit, wrongID bool, cut time.Duration, b
 					n = 2
 				}
 				for k := 0; k < n; k++ {
-					if em.binary > 0 {
-						f.InPackets(vrig.Msg(fmt.Sprintf(`6%d-%s[{"_placeholder":true,"num":0},{"_placeholder":true,"num":1}]`, 2, id)), vrig.Bin([]byte{1, byte(i)}), vrig.Bin([]byte{2, byte(i)}))
-					} else if em.badReply {
-						f.In(fmt.Sprintf(`3%s[{"not":"a string"}]`, id))
-					} else {
-						f.In(fmt.Sprintf(`3%s["%s"]`, id, em.reply))
-					}
+					f.InPackets(ps...)
 				}
 			})
 		}
@@ -753,6 +767,9 @@ func clientOnline(name string, delays []time.Duration, attachments int, cut time
 			logs[i] = &cbLog{}
 			if attachments > 0 {
 				sock.Timeout(T).Emit("qb", i, sio.Binary{1, 2}, func(err error, s string, b sio.Binary) {
+					if err == nil && string(b) != string([]byte{9, byte(i)}) {
+						s += fmt.Sprintf("+attachment %x", []byte(b)) // the reply's attachment is part of "the right reply"
+					}
 					logs[i].add(fmt.Sprintf("%s|%s", errStr(err), s))
 				})
 			} else if attachments == -4 && i == 0 {
@@ -841,6 +858,9 @@ func scenariosMode(tier string, early bool) []*vx.Scenario {
 		serverSide("server/timeout-duplicate-at-T", []srvEmit{{ev: "a", timeout: true, reply: "ra", replyDelay: T, duplicate: true}}, false, 0, b1, early),
 		serverSide("server/binary-reply", []srvEmit{{ev: "a", reply: "-", binary: 2}}, false, 0, b1, early),
 		serverSide("server/binary-timeout-at-T", []srvEmit{{ev: "a", timeout: true, reply: "-", binary: 2, replyDelay: T}}, false, 0, b1, early),
+		serverSide("server/2-binary-replies-in-one-batch", []srvEmit{{ev: "a", reply: "-", binary: 2}, {ev: "b", reply: "-", binary: 2, batch: true}}, false, 0, b1, early),
+		serverSide("server/binary-timeout-reply-then-text-then-binary-in-one-batch", []srvEmit{{ev: "a", timeout: true, reply: "-", binary: 2, replyDelay: time.Second}, {ev: "b", reply: "rb", batch: true}, {ev: "c", timeout: true, reply: "-", binary: 2, batch: true}}, false, 0, b1, early),
+		serverSide("server/2-binary-replies-from-two-threads", []srvEmit{{ev: "a", reply: "-", binary: 2}, {ev: "b", timeout: true, reply: "-", binary: 2}}, false, 0, b1, early),
 		serverSide("server/timeout-reply-of-the-wrong-type", []srvEmit{{ev: "a", timeout: true, reply: "bad", badReply: true, replyDelay: time.Second}}, false, 0, b1, early),
 		serverSide("server/timeout-reply-of-the-wrong-type-then-plain-reply", []srvEmit{{ev: "a", timeout: true, reply: "bad", badReply: true}, {ev: "b", reply: "rb"}}, false, 0, b1, early),
 		serverSide("server/timeout-unencodable-argument", []srvEmit{{ev: "a", timeout: true, unencodable: true}}, false, 0, b1, early),
@@ -869,6 +889,8 @@ func scenariosMode(tier string, early bool) []*vx.Scenario {
 		clientOnline("client-online/ack-late", []time.Duration{T + time.Second}, 0, 0, b2, early),
 		clientOnline("client-online/never", []time.Duration{-1}, 0, 0, b2, early),
 		clientOnline("client-online/binary-at-T", []time.Duration{T}, 1, 0, b2, early),
+		clientOnline("client-online/3-binary-acks-in-one-poll-answer", []time.Duration{time.Second, time.Second, time.Second}, 1, 0, b2, early),
+		clientOnline("client-online/2-binary-acks-at-once", []time.Duration{0, 0}, 1, 0, b2, early),
 		clientOnline("client-online/reply-of-the-wrong-type-then-ack-at-once", []time.Duration{0, 0}, -4, 0, b2, early),
 		clientOnline("client-online/unencodable-argument-then-ack-at-once", []time.Duration{0, 0}, -1, 0, b2, early),
 		clientOnline("client-online/3-outstanding", []time.Duration{time.Second, T, -1}, 0, 0, b2, early),
